@@ -595,6 +595,7 @@ func (f vfC07Filter) sel(r *vfC07Rec, clients vfC07Clients) (sel int) {
 
 var (
 	vfC07Labels    = []string{"a", "b", "ads", "cdn", "www", "x1", "tracker", "cli", "laptop", "a-b", "_dmarc"}
+	vfC07EscapedLabels = []string{"a&b", "x<y", "q=1&r=2", "<b>"}
 	vfC07IDNLabels = []string{"пример", "bücher", "münchen", "例え"}
 	vfC07TLDs      = []string{"test", "example", "com", "org", "co.uk"}
 
@@ -618,6 +619,18 @@ var (
 	vfC07ListIDs = []int{0, 1, 2, 1700000000, -1, -2, -3, -4, -5, 42}
 )
 
+// vfC07EscapedLabelsAllowed: names with JSON-escaped bytes are generated unless
+// the finding about them is listed as open.
+func vfC07EscapedLabelsAllowed() (ok bool) {
+	if _, open := vfkit.KnownOpen("C07", vfC07SigEscaped); open {
+		vfC07.Excluded(vfC07SigEscaped)
+
+		return false
+	}
+
+	return true
+}
+
 func vfC07DrawHost(t *rapid.T, label string) (qname string, idn bool) {
 	if rapid.IntRange(0, 39).Draw(t, label+"_root") == 0 {
 		return ".", false
@@ -633,6 +646,10 @@ func vfC07DrawHost(t *rapid.T, label string) (qname string, idn bool) {
 			}
 			parts = append(parts, a)
 			idn = true
+		} else if rapid.IntRange(0, 11).Draw(t, label+"_escaped") == 0 && vfC07EscapedLabelsAllowed() {
+			// bytes that are legal in a wire name and that encoding/json
+			// escapes in the stored line
+			parts = append(parts, rapid.SampledFrom(vfC07EscapedLabels).Draw(t, label+"_esclabel"))
 		} else {
 			parts = append(parts, rapid.SampledFrom(vfC07Labels).Draw(t, label+"_label"))
 		}
